@@ -70,7 +70,7 @@ Definition stats_c01 (su : SourceUnit) : N * N :=
   let p := pre (N_SourceUnit su) in
   (len p, len (filter (fun t => existsb (fun n => Target_eqb (kind_of n) t) p) all_targets)).
 
-(* the same without the quadratic sub-root part (the harness leaves it out for trees with more than 1500 nodes) *)
+(* the same without the quadratic sub-root part (the harness leaves it out for trees with more than 700 nodes) *)
 Definition check_c01_nosub (su : SourceUnit) (wall : list (N * N * N))
            (wsets : list (list (N * N * N))) (wsingle : list N) : list N :=
   let root := N_SourceUnit su in
